@@ -172,7 +172,10 @@ type Clause struct {
 // returns resBase+i, the default returns dflt.
 type Config struct {
 	Default bool     `json:"default"`
-	Clauses []Clause `json:"clauses"`
+	// DefaultTwice: the default is configured by two Return calls (the documented way to build a
+	// default sequence; both carry the same value so the expected result does not depend on a cursor)
+	DefaultTwice bool     `json:"default_twice,omitempty"`
+	Clauses      []Clause `json:"clauses"`
 }
 
 const (
@@ -259,6 +262,10 @@ func (s *sigSpec) install(b *mocker.Builder, cfg *Config) (w *mocker.When, ops i
 	if cfg.Default {
 		w = h.Return(dflt)
 		ops++
+		if cfg.DefaultTwice {
+			w = h.Return(dflt)
+			ops++
+		}
 	}
 	for i, cl := range cfg.Clauses {
 		switch cl.Kind {
@@ -619,6 +626,9 @@ func (s *sigSpec) key(cfg *Config, ct *callT, v verdict) string {
 	if cfg.Default {
 		sb.WriteString(" default=yes")
 	}
+	if cfg.DefaultTwice {
+		sb.WriteString("(two Returns)")
+	}
 	return sb.String()
 }
 
@@ -656,7 +666,7 @@ func kindSet(cfg *Config) string {
 // minimisation: greedy, deterministic, strictly decreasing
 
 func cloneCfg(c *Config) *Config {
-	n := &Config{Default: c.Default, Clauses: make([]Clause, len(c.Clauses))}
+	n := &Config{Default: c.Default, DefaultTwice: c.DefaultTwice, Clauses: make([]Clause, len(c.Clauses))}
 	for i, cl := range c.Clauses {
 		n.Clauses[i].Kind = cl.Kind
 		n.Clauses[i].Alts = make([][]int, len(cl.Alts))
@@ -698,10 +708,16 @@ func (s *sigSpec) candidates(cfg *Config, ct *callT) []cand {
 		n.Default = true
 		out = append(out, cand{n, cpCall()})
 	}
+	// a single Return instead of two
+	if cfg.DefaultTwice {
+		n := cloneCfg(cfg)
+		n.DefaultTwice = false
+		out = append(out, cand{n, cpCall()})
+	}
 	// drop the default
 	if cfg.Default {
 		n := cloneCfg(cfg)
-		n.Default = false
+		n.Default, n.DefaultTwice = false, false
 		out = append(out, cand{n, cpCall()})
 	}
 	// drop an alternative
@@ -1008,14 +1024,18 @@ func Run(c *vk.Ctx) {
 			if _, ok := alph[an]; !ok {
 				alph[an] = s.alphabet(an)
 			}
-			space[fmt.Sprintf("space_%s_len%d", s.name, L)] = fmt.Sprintf("alphabet %s (%d clauses) x default{none,Return} x %d calls", an, len(alph[an]), len(calls))
+			space[fmt.Sprintf("space_%s_len%d", s.name, L)] = fmt.Sprintf("alphabet %s (%d clauses) x default{none,Return,Return+Return} x %d calls", an, len(alph[an]), len(calls))
 		}
 		for L, an := range plan {
 			A := alph[an]
 			sel := make([]int, L)
 			for {
-				for _, def := range []bool{false, true} {
-					cfg := Config{Default: def, Clauses: make([]Clause, L)}
+				for _, defN := range []int{0, 1, 2} {
+					def := defN > 0
+					cfg := Config{Default: def, DefaultTwice: defN == 2, Clauses: make([]Clause, L)}
+					if defN == 2 && L == 0 {
+						continue
+					}
 					for i, k := range sel {
 						cfg.Clauses[i] = A[k]
 					}
